@@ -166,8 +166,17 @@ def oracle_triple(fn, np, n, kp, kq, kr):
     """direct statement of the property on the implementation's outputs; returns None or a reason"""
     p, q, r = to_floats(kp), to_floats(kq), to_floats(kr)
     vals = {}
-    for name, (a, b) in {"pq": (p, q), "qp": (q, p), "qr": (q, r), "pr": (p, r)}.items():
-        res = run_impl(fn, np, a, b, n)
+    # the caller's float64 arrays are passed as they are and re-used for the next pair (d(p,q) then d(q,p) ...): the value is a
+    # function of the two distributions only, so the arguments must come back unchanged
+    P, Q, R = np.array(p, dtype=float), np.array(q, dtype=float), np.array(r, dtype=float)
+    for name, (a, b) in {"pq": (P, Q), "qp": (Q, P), "qr": (Q, R), "pr": (P, R)}.items():
+        try:
+            with np.errstate(all="ignore"):
+                res = ("ok", float(fn(a, b, n)))
+        except Exception as e:  # noqa
+            res = ("err", type(e).__name__)
+        if P.tolist() != p or Q.tolist() != q or R.tolist() != r:
+            return "the call on the pair %s modified its argument arrays (float64 ndarrays passed by the caller)" % name
         if res[0] != "ok":
             return "raised %s on the pair %s" % (res[1], name)
         if not math.isfinite(res[1]):
